@@ -1,8 +1,8 @@
 """R-PROG: a constant table that is a progression has no deviant entry (after Engler et al., "bugs as deviant behaviour").
 
-A per-resolution table of powers (7^r, sqrt(7)^r, 1/7^r ...) or of equally spaced values is recognised by itself: all entries positive and at least
-three quarters of the consecutive ratios (resp. differences) agree to 1e-12 relative.  Entries next to a ratio that deviates by more than 1e-12 are
-then wrong digits, not design: the table is used as `t[res]` in place of the repeated multiplication it replaces (C02: the scale of the face plane
+A per-resolution table of powers (7^r, sqrt(7)^r, 1/7^r ...) or of equally spaced values is recognised by itself: all entries positive and three
+quarters of the consecutive ratios (resp. differences) agree closely (to 1e-6 at least; their spread is the table's own noise level).  Entries next
+to a step that deviates by more than 1e-12 and by more than 1000 times that noise level are then wrong digits, not design: the table is used as `t[res]` in place of the repeated multiplication it replaces (C02: the scale of the face plane
 per resolution; C06/C13: children counts).  Tables that are not exact progressions (measured averages, lookup maps) never qualify and are not
 judged.  The detector itself is exercised on every run with a built-in correct and a built-in perturbed progression."""
 import statistics
@@ -22,7 +22,12 @@ def deviants(v):
         med = statistics.median(steps)
         if med == 0 or (kind == "ratio" and abs(med - 1) < 1e-9):
             continue
-        off = [i for i, s_ in enumerate(steps) if abs(s_ / med - 1) > TOL]
+        dev = [abs(s_ / med - 1) for s_ in steps]
+        # the table's own noise level (literals written with fewer digits agree less closely): a deviant step stands out from it by orders of magnitude
+        q3 = sorted(dev)[(3 * len(dev)) // 4 - 1]
+        if q3 > 1e-6:
+            continue
+        off = [i for i, d_ in enumerate(dev) if d_ > max(TOL, 1000 * q3)]
         if len(off) * 4 > len(steps):
             continue
         # a wrong interior entry k spoils steps k-1 and k; a wrong first/last entry spoils one step
@@ -44,7 +49,9 @@ def check(ctx, m, cfg, globals_reached=None):
     wrong = list(good)
     wrong[3] *= 1 + 3e-8
     d1, d2 = deviants(good), deviants(wrong)
-    if d1 is None or d1[0] or d2 is None or d2[0] != [3] or deviants([4.3e6, 6.1e5, 8.7e4, 1.2e4, 1.8e3, 2.5e2, 36.1]) is not None:
+    rounded = [float("%.10g" % x) for x in good]          # the same table written with ten digits: noisy, but no entry stands out
+    d3 = deviants(rounded)
+    if d1 is None or d1[0] or d2 is None or d2[0] != [3] or d3 is None or d3[0] or deviants([4.3e6, 6.1e5, 8.7e4, 1.2e4, 1.8e3, 2.5e2, 36.1]) is not None:
         raise AnalysisBroken("the progression detector fails its built-in examples")
     ctx.ok(RULE, {"instance": "detector self-example", "config": cfg}, "sqrt(7)^r for r = 0..15 is accepted, the same table with entry 3 off by 3e-8 is reported at entry 3, a table of measured averages does not qualify")
     T = tables.Tables(m)
